@@ -34,8 +34,8 @@ def liveVal (c : Ctx) (s : State) (k : Bytes) : Option Val :=
 def isComposite : Val → Bool
   | .list _ => true
   | .hash _ => true
-  | .set _ => true
-  | .zset _ => true
+  | .set _ _ => true
+  | .zset _ _ => true
   | _ => false
 
 /-- bytes that AdaptType re-types to a number whose canonical text differs (007, 1e3, +5, 1.50, clamped) -/
